@@ -5,7 +5,8 @@ C11 — compiled queries are structurally well-formed.
 ENGINE_PROTOCOL.md; it is compared with the real frontend IR-for-IR on every generated accepted
 query by `./check C11`.  `WF` (Model/IRWF.lean) is the decidable conjunction of the property's
 clauses; the theorems below are its clauses for every query the modelled frontend accepts, over
-every schema view.  `WF` is additionally evaluated on every real IR by the driver.
+every schema view (clause 6 includes, since the repair of F-10, that a fold's imported tags are
+pairwise distinct).  `WF` is additionally evaluated on every real IR by the driver.
 -/
 import TrustfallModel.Proofs.FrontendIndexed
 
@@ -51,23 +52,31 @@ theorem toIR_tags_defined_before_use {S : SchemaView} {q : Query} {ir : IRQuery}
     (h : toIR S q = .ok ir) : wfTagsC [] ir.rootComponent = true :=
   (toIR_tags_imports h).1
 
-/-- Clause 6: `fold.imported_tags`, as a set, is exactly the set of tagged fields used inside the
-fold at any depth (vertex filters, post-filters of nested folds) and defined in the fold's parent
-component.  (The list may contain a field twice — F-10 — which is why this is a statement about
-sets; a field defined further out is imported by the fold directly below *its* component, and
-reaches inner folds through the context, which clause 5 accounts for.) -/
+/-- Clause 6: `fold.imported_tags` is exactly the set of tagged fields used inside the fold at any
+depth (vertex filters, post-filters of nested folds) and defined in the fold's parent component.
+(A field defined further out is imported by the fold directly below *its* component, and reaches
+inner folds through the context, which clause 5 accounts for.) -/
 theorem toIR_imports_exact {S : SchemaView} {q : Query} {ir : IRQuery} (h : toIR S q = .ok ir) :
     wfImportsC ir.rootComponent = true :=
   (toIR_tags_imports h).2
+
+/-- Clause 6, second half: the imported tags of a fold are pairwise distinct — a tag used several
+times inside one fold is imported once (`reference_tag` pushes a field only if the slot does not
+contain it yet).  History: before the repair of F-10 the list could contain a field twice and the
+interpreter, which inserts and removes every import exactly once, panicked on the second removal
+(`imported_tags.remove(..).unwrap()`); clause 6 was then a statement about sets only. -/
+theorem toIR_imports_distinct {S : SchemaView} {q : Query} {ir : IRQuery} (h : toIR S q = .ok ir) :
+    wfImportsDistinctC ir.rootComponent = true :=
+  Frontend.toIR_imports_distinct h
 
 /-- C11: every query the (modelled) frontend accepts, over any schema, compiles to a structurally
 well-formed IR. -/
 theorem toIR_wf {S : SchemaView} {q : Query} {ir : IRQuery} (h : toIR S q = .ok ir) :
     WF ir = true := by
   simp only [WF, Bool.and_eq_true]
-  exact ⟨⟨⟨⟨⟨⟨(toIR_edge_numbering h).1, toIR_ids_unique h⟩, toIR_fold_intervals h⟩,
+  exact ⟨⟨⟨⟨⟨⟨⟨(toIR_edge_numbering h).1, toIR_ids_unique h⟩, toIR_fold_intervals h⟩,
     (toIR_edge_numbering h).2⟩, toIR_tags_defined_before_use h⟩, toIR_imports_exact h⟩,
-    toIR_variables_recorded h⟩
+    toIR_variables_recorded h⟩, toIR_imports_distinct h⟩
 
 /-- `IndexedQuery::try_from` (model `indexedOk`, compared with the real one on every real IR)
 accepts every well-formed query whose outputs are in order (`outputsOk`: each output is read at a
@@ -113,14 +122,22 @@ def accepted : M IRQuery → Bool
 example : accepted (toIR exSchema exQuery) = true := by decide +kernel
 
 /-- the inner fold does not list the tag it only inherits: imports of the outer fold `[ctx 1 s]`
-(twice: F-10), of the inner fold `[]` -/
+(once, although the tag is used twice inside it — regression example for F-10, formerly `[1, 1]`),
+of the inner fold `[]` -/
 def importsOf : M IRQuery → List (List Nat)
   | .ok ir =>
     ir.rootComponent.folds.flatMap fun f =>
       [f.imports.map definedAt] ++ f.component.folds.map fun g => g.imports.map definedAt
   | .error _ => []
 
-example : importsOf (toIR exSchema exQuery) = [[1, 1], []] := by decide +kernel
+example : importsOf (toIR exSchema exQuery) = [[1], []] := by decide +kernel
+
+/-- `WF` rejects an import list with a repetition (the shape the frontend produced before the repair
+of F-10). -/
+example : wfImportsDistinctC (.mk 1 [⟨1, "T", none, []⟩] []
+    [.mk 1 1 2 "e" [] (.mk 2 [⟨2, "T", none, []⟩] [] [] [])
+      [.ctx 1 "s" ⟨"String", [true]⟩, .ctx 1 "s" ⟨"String", [true]⟩] [] []] []) = false := by
+  decide +kernel
 
 /-- `WF` is not vacuous: an edge `1` leading to vertex `3` is rejected. -/
 example : WF ⟨"R", [], [], .mk 1 [⟨1, "T", none, []⟩, ⟨3, "T", none, []⟩]
@@ -134,6 +151,7 @@ end TF.C11
 #print axioms TF.C11.toIR_variables_recorded
 #print axioms TF.C11.toIR_tags_defined_before_use
 #print axioms TF.C11.toIR_imports_exact
+#print axioms TF.C11.toIR_imports_distinct
 #print axioms TF.C11.toIR_wf
 #print axioms TF.C11.wf_indexed_ok
 #print axioms TF.C11.toIR_outputs
